@@ -43,7 +43,7 @@ func calleeName(ci ssa.CallInstruction) string {
 	c := ci.Common()
 	if c.IsInvoke() {
 		recv := c.Value.Type()
-		return "(" + typeString(recv) + ")." + c.Method.Name()
+		return strings.ReplaceAll("("+typeString(recv)+")."+c.Method.Name(), modPath+"/", "")
 	}
 	switch v := c.Value.(type) {
 	case *ssa.Builtin:
@@ -494,15 +494,15 @@ func flows(v ssa.Value, pred func(ssa.Value) bool) bool {
 			}
 			return false
 		case *ssa.Alloc:
-			// address of a local: whatever is stored there
-			if vals, ok := storesTo(x); ok {
-				for _, s := range vals {
-					if rec(s, depth+1) {
-						return true
-					}
+			// address of a local: whatever is stored there (directly, from
+			// closures, or through field/element addresses)
+			vals, _ := storesTo(x)
+			vals = append(vals, subStores(x)...)
+			for _, s := range vals {
+				if rec(s, depth+1) {
+					return true
 				}
 			}
-			// also stores through sub-addresses (x[:] filled by a call)
 			return false
 		case ssa.Instruction:
 			for _, op := range x.Operands(nil) {
